@@ -159,7 +159,7 @@ def main(argv):
         al = rt.align_script(drv, c09.script_single("small"), 1024, chk.scratch, inline=True)
         if al:
             scripts.append(("single-aligned-1024", al[0]))
-    modes = ["direct", "tmp-tmpfs"] + ([] if quick else ["tmp-disk"])
+    modes = ["direct", "tmp-tmpfs", "tmp-is-trace"] + ([] if quick else ["tmp-disk"])
     work = []
     npoints = {}
     rng = chk.rng(0, "faults")
